@@ -574,10 +574,14 @@ func (mi *muxInstance) search(req *httpprot.Request) *route {
 				continue
 			}
 
-			// The path can be put into the cache if it has no headers.
+			// The path can be put into the cache if it has no headers, and no
+			// earlier entry that matches the same path and method depends on
+			// headers (such an entry must win for requests carrying them).
 			if len(path.headers) == 0 {
-				r = &route{code: 0, path: path}
-				mi.putRouteToCache(req, r)
+				if !headerMismatch {
+					r = &route{code: 0, path: path}
+					mi.putRouteToCache(req, r)
+				}
 			} else if !path.matchHeaders(req) {
 				headerMismatch = true
 				continue
